@@ -547,7 +547,9 @@ def run(idx, rep, tier):
                                 "chunk taken by the exact diagonal estimator and every small sub-block then costs n^2 memory", detail="densifies-parent", locs=[idx.loc(m.module, c)])
         if not n_bad:
             rep.proved("matrix-free-product", "Sliced:parent", "no method of Sliced densifies the parent operator", locs=[idx.loc(sl.module, sl.node)])
+    probe_side(idx, rep)
     rep.floor("matrix-free-product", 18)
+    rep.floor("probe-side", 1)
     rep.floor("structural-rule", 60)
     rep.floor("default-arity", 100)
     rep.explanation = ("Reachability over the call graph with dispatch edges resolved by the plum resolver model: (1) materialiser calls in the "
@@ -560,3 +562,73 @@ def run(idx, rep, tier):
         "the algorithm class at a forwarding call is the parameter's class, the class of a constructor call, or every admitted class when unknown",
         "peak memory as a number is not decided",
     ]
+
+
+def _shape_axis(e):
+    """axis of `self.shape[i]` (0 rows / 1 columns), with an optional constant factor: returns (axis, factor) or None"""
+    if isinstance(e, ast.BinOp) and isinstance(e.op, ast.Mult):
+        for c, x in ((e.left, e.right), (e.right, e.left)):
+            if isinstance(c, ast.Constant) and isinstance(c.value, (int, float)) and c.value > 0:
+                r = _shape_axis(x)
+                if r is not None:
+                    return (r[0], r[1] * c.value)
+        return None
+    if isinstance(e, ast.Subscript) and isinstance(e.value, ast.Attribute) and e.value.attr == "shape" and ast.unparse(e.value.value) == "self":
+        i = e.slice
+        v = i.value if isinstance(i, ast.Constant) else (-i.operand.value if isinstance(i, ast.UnaryOp) and isinstance(i.op, ast.USub) and isinstance(i.operand, ast.Constant) else None)
+        if isinstance(v, int) and v in (0, 1, -1, -2):
+            return ({-1: 1, -2: 0}.get(v, v), 1)
+    return None
+
+
+def probe_side(idx, rep):
+    """the generic densifier multiplies the operator into an identity: on the branch taken because one dimension is (a multiple)
+    smaller than the other, the identity must have the SMALL dimension -- the n-by-b chunks the exact diagonal / trace estimators
+    densify are n x 100, and probing them from the long side costs n^2"""
+    td = idx.find_method(idx.cls("LinearOperator"), "to_dense")
+    if td is None:
+        rep.missing_anchor("LinearOperator.to_dense")
+        return
+    for r in df.returns(td.node):
+        v = r.value
+        if not (isinstance(v, ast.BinOp) and isinstance(v.op, ast.MatMult)):
+            continue
+        eye = next((x for x in (v.left, v.right) if isinstance(x, ast.Call) and df.is_xnp_call(x) and x.func.attr == "eye" and x.args), None)
+        if eye is None:
+            continue
+        side = "left" if eye is v.left else "right"
+        dim = _shape_axis(df.resolve_value(td.node, eye.args[0]) if isinstance(eye.args[0], ast.Name) else eye.args[0])
+        construct = f"LinearOperator.to_dense:{side}-probe"
+        loc = idx.loc(td.module, getattr(r, "_origin", r))
+        if dim is None:
+            rep.undecided("probe-side", construct, f"size of the identity `{ast.unparse(eye.args[0])}` not read", locs=[loc])
+            continue
+        want = 0 if side == "left" else 1  # eye(rows) @ A, A @ eye(columns)
+        if dim[0] != want:
+            rep.refuted("probe-side", construct, f"`{ast.unparse(v)[:70]}`: an identity of the {'column' if dim[0] else 'row'} dimension is multiplied from the {side}", detail="contraction",
+                        locs=[loc])
+            continue
+        verdict, why = True, f"identity of the {'row' if want == 0 else 'column'} dimension multiplied from the {side}"
+        for t, pol in df.branch_conditions(r, td.node):
+            if not (isinstance(t, ast.Compare) and len(t.ops) == 1):
+                continue
+            a, b = _shape_axis(t.left), _shape_axis(t.comparators[0])
+            if a is None or b is None or a[0] == b[0]:
+                continue
+            op = t.ops[0]
+            if isinstance(op, (ast.Gt, ast.GtE)):
+                a, b = b, a
+            elif not isinstance(op, (ast.Lt, ast.LtE)):
+                continue
+            # f_a * shape[a] < f_b * shape[b]
+            if pol and a[1] >= b[1]:
+                small = a[0]  # holds: shape[a] is the (strictly) smaller dimension
+            elif not pol and a[1] <= b[1]:
+                small = b[0]  # fails: f_a * shape[a] >= f_b * shape[b] with f_a <= f_b gives shape[a] >= shape[b]; with f_a > f_b nothing follows
+            else:
+                continue
+            if small != dim[0]:
+                verdict = False
+                why = (f"on the branch where `{ast.unparse(t)}` {'holds' if pol else 'fails'} the {'row' if small == 0 else 'column'} dimension is the small one, but the operator is "
+                       f"multiplied into an identity of the {'row' if dim[0] == 0 else 'column'} dimension: a tall n-by-b chunk is densified through an n-by-n identity")
+        rep.decide(verdict, "probe-side", construct, why, detail="" if verdict else "long-side", locs=[loc])
